@@ -624,7 +624,9 @@ func c08RefWorker(args []string) {
 		fmt.Println(`{"msg":"compile error"}`)
 		return
 	}
-	bs, _ := json.Marshal(w.exec(in.Case.Steps[in.Step]))
+	o := w.exec(in.Case.Steps[in.Step])
+	o.Out = hex.EncodeToString([]byte(o.Out)) // JSON would replace the bytes of a cut multi-byte character by U+FFFD
+	bs, _ := json.Marshal(o)
 	fmt.Println("D " + string(bs))
 }
 
@@ -640,7 +642,10 @@ func c08FreshProcess(e *env, c *c08Case, step int) (c08Out, bool) {
 		if strings.HasPrefix(line, "D ") {
 			var o c08Out
 			if json.Unmarshal([]byte(line[2:]), &o) == nil {
-				return o, true
+				if raw, err := hex.DecodeString(o.Out); err == nil {
+					o.Out = string(raw)
+					return o, true
+				}
 			}
 		}
 	}
